@@ -113,6 +113,14 @@ func VerifNewPipeline(applier func(*pb.RaftCmdRequest) (*pb.RaftCmdResponse, err
 	return &VerifPipeline{cp: newCommandPipeline(applier), props: map[uint64]*commandProposal{}}
 }
 
+// SetSeq presets the pipeline's local request counter (a store that has
+// already handed out n request ids).
+func (v *VerifPipeline) SetSeq(n uint64) {
+	v.cp.mu.Lock()
+	v.cp.seq = n
+	v.cp.mu.Unlock()
+}
+
 // NextID calls nextProposalID.
 func (v *VerifPipeline) NextID(term uint64) uint64 { return v.cp.nextProposalID(term) }
 
